@@ -8,7 +8,11 @@ What is proved here is the algebra: *if* the checkpoint round-trips the complete
 (the real objects pickle their whole state, no operator keeps state elsewhere) are checked on
 the implementation by `harness/props/c17.py`.
 
-The last section (`C03`) instantiates the algebra on the loop model of property C03
+Three later sections: hidden state (`HRun`: `resume_of_hidden_constant`, `resume_iff_hidden_irrelevant`,
+`hidden_state_breaks_resume`, `c03_resume_hidden_constant`) and `tools.migRing` (`migRing_deterministic`, `migRing_shape`,
+`migRing_conserves`).
+
+The section `C03` instantiates the algebra on the loop model of property C03
 (`DeapModel/Core/Loops.lean`): the machine state (generation counter, tape, `LState`) is complete
 (`state_complete`), `Loops.runGens` is the iterate of the machine step (`runGens_eq_run`), killing and
 resuming `runGens` / `eaSimple` / … from a round-tripping checkpoint gives the uninterrupted run
@@ -17,8 +21,11 @@ resuming `runGens` / `eaSimple` / … from a round-tripping checkpoint gives the
 -/
 import DeapModel.Core.Resume
 import DeapModel.Core.Loops
+import DeapModel.Core.Migration
 import DeapModel.Lemmas.C17Buf
 import DeapModel.Lemmas.C17Loops
+import DeapModel.Lemmas.C17Hidden
+import DeapModel.Lemmas.C17Mig
 
 namespace C17
 open Resume
@@ -611,4 +618,253 @@ example : (runPopWith (schedMapper flipSched) tapeEv (tapeDecs.map (simpleStep t
 
 end C03
 
+/-! ### Hidden state: what a checkpoint does not save -/
+
+section Hidden
+variable {V H B : Type}
+
+/-- The premise the harness's hidden-state detector checks on the implementation: if no step changes the hidden
+component (it may be READ: constant tables, registries) and the visible part round-trips, a run killed after any
+generation `k ≤ n` and resumed in a new process — where importing the library gives the same hidden value `h` the
+first process started with — ends in the state of the uninterrupted run. -/
+theorem resume_of_hidden_constant (r : HRun V H B) (hrt : ∀ v, r.dec (r.enc v) = some v)
+    (hc : HiddenConstant r) (n k : Nat) (hk : k ≤ n) (v : V) (h : H) :
+    hresumeFrom r h k n (v, h) = some (hrun r n (v, h)) := by
+  have e : hrun r k (v, h) = ((hrun r k (v, h)).1, h) := by
+    have := hrun_snd_of_hiddenConstant r hc k (v, h)
+    exact Prod.ext rfl this
+  rw [hresumeFrom, hrt, Option.map_some, ← e, ← hrun_add, Nat.add_sub_cancel' hk]
+
+example : HiddenConstant toyConst ∧ ∀ v, toyConst.dec (toyConst.enc v) = some v := ⟨fun _ => rfl, fun _ => rfl⟩
+example : hresumeFrom toyConst 3 2 5 (1, 3) = some (16, 3) ∧ hrun toyConst 5 (1, 3) = (16, 3) := by decide
+
+/-- … and a second run in the same process, and a checkpoint restored in the same process, agree with it too. -/
+theorem rerun_of_hidden_constant (r : HRun V H B) (hc : HiddenConstant r) (n : Nat) (v : V) (h : H) :
+    hrerun r n v h = hrun r n (v, h) := by
+  rw [hrerun, hrun_snd_of_hiddenConstant r hc n (v, h)]
+
+/-- (i)  When the step DOES write the hidden component, resumption is correct exactly when the hidden component never
+reaches the visible output: for a round-tripping checkpoint, "for every start state, every hidden value `h0` the new
+process may come up with, every `n` and every crash point `k ≤ n` the resumed run shows the visible state of the
+uninterrupted run" is equivalent to non-interference of the step. -/
+theorem resume_iff_hidden_irrelevant (r : HRun V H B) (hrt : ∀ v, r.dec (r.enc v) = some v) :
+    (∀ (h0 : H) (s : V × H) (n k : Nat), k ≤ n →
+        (hresumeFrom r h0 k n s).map Prod.fst = some (hrun r n s).1) ↔ NonInterfering r := by
+  constructor
+  · intro hres v h h'
+    have := hres h' (v, h) 1 0 (Nat.zero_le _)
+    simp only [hresumeFrom, hrun, hrt, Option.map_some, Nat.sub_zero, Option.some.injEq] at this
+    exact this.symm
+  · intro hni h0 s n k hk
+    rw [hresumeFrom, hrt, Option.map_some, Option.map_some]
+    have e : hrun r n s = hrun r (n - k) ((hrun r k s).1, (hrun r k s).2) := by
+      rw [← Nat.add_sub_cancel' hk, hrun_add, Nat.add_sub_cancel' hk]
+    rw [e, hrun_fst_of_nonInterfering r hni (n - k) (hrun r k s).1 h0 (hrun r k s).2]
+
+/-- The direction the check relies on, spelled out for one crash point. -/
+theorem resume_of_hidden_irrelevant (r : HRun V H B) (hrt : ∀ v, r.dec (r.enc v) = some v)
+    (hni : NonInterfering r) (h0 : H) (s : V × H) (n k : Nat) (hk : k ≤ n) :
+    (hresumeFrom r h0 k n s).map Prod.fst = some (hrun r n s).1 :=
+  (resume_iff_hidden_irrelevant r hrt).2 hni h0 s n k hk
+
+/-- The same for the two in-process histories of the harness: the run started a second time, and a checkpoint
+restored after the uninterrupted run has finished, show the same visible states. -/
+theorem rerun_of_hidden_irrelevant (r : HRun V H B) (hni : NonInterfering r) (n : Nat) (v : V) (h : H) :
+    (hrerun r n v h).1 = (hrun r n (v, h)).1 :=
+  hrun_fst_of_nonInterfering r hni n v _ _
+
+theorem restoreSame_of_hidden_irrelevant (r : HRun V H B) (hrt : ∀ v, r.dec (r.enc v) = some v)
+    (hni : NonInterfering r) (s : V × H) (n k : Nat) (hk : k ≤ n) :
+    (hrestoreSame r k n s).map Prod.fst = some (hrun r n s).1 := by
+  have := resume_of_hidden_irrelevant r hrt hni (hrun r n s).2 s n k hk
+  simpa [hrestoreSame, hresumeFrom] using this
+
+/-- a machine that WRITES its hidden state in every step and never reads it: non-interfering, not hidden-constant —
+the detector reports it, and no failing history exists -/
+example : NonInterfering (toyHidden false) ∧ ¬ HiddenConstant (toyHidden false) ∧
+    ∀ v, (toyHidden false).dec ((toyHidden false).enc v) = some v := by
+  refine ⟨fun v h h' => rfl, fun hc => ?_, fun _ => rfl⟩
+  have := hc (0, false)
+  simp [toyHidden] at this
+
+/-- (ii)  The converse witness (the module-level cycle of seeded change C17-r4m3): the step reads the hidden
+component, the checkpoint round-trips everything it is given, and still the run killed after generation 1 and
+resumed in a new process (cycle at its start position) differs from the uninterrupted run; so does the run started a
+second time in the same process; the checkpoint of generation 1 restored in the same process after a 3-generation
+run happens to agree (the cycle is back in step) and after a 4-generation run it does not — which is why the harness
+varies the run lengths. -/
+theorem hidden_state_breaks_resume :
+    (∀ v, (toyHidden true).dec ((toyHidden true).enc v) = some v) ∧
+    ¬ NonInterfering (toyHidden true) ∧
+    hrun (toyHidden true) 3 (1, false) = (10, true) ∧
+    hresumeFrom (toyHidden true) false 1 3 (1, false) = some (9, false) ∧
+    (hresumeFrom (toyHidden true) false 1 3 (1, false)).map Prod.fst ≠ some (hrun (toyHidden true) 3 (1, false)).1 ∧
+    (hrerun (toyHidden true) 3 1 false).1 ≠ (hrun (toyHidden true) 3 (1, false)).1 ∧
+    (hrestoreSame (toyHidden true) 1 3 (1, false)).map Prod.fst = some (hrun (toyHidden true) 3 (1, false)).1 ∧
+    (hrestoreSame (toyHidden true) 1 4 (1, false)).map Prod.fst ≠ some (hrun (toyHidden true) 4 (1, false)).1 := by
+  refine ⟨fun _ => rfl, fun hni => ?_, by decide, by decide, by decide, by decide, by decide, by decide⟩
+  have := hni 0 true false
+  simp [toyHidden] at this
+
+/-- A run without hidden state is a `Run`: the two notions of "n generations" agree. -/
+theorem hrun_unit (r : HRun V Unit B) (n : Nat) (v : V) : (hrun r n (v, ())).1 = run r.toRun n v := by
+  induction n generalizing v with
+  | zero => rfl
+  | succ n ih =>
+    rw [hrun_succ]
+    show (hrun r n ((r.step (v, ())).1, (r.step (v, ())).2)).1 = run r.toRun n ((r.step (v, ())).1)
+    exact ih _
+
+end Hidden
+
+/-! #### … on the C03 machine -/
+
+section C03Hidden
+open Variation Loops
+variable {τ H B : Type}
+
+/-- The hidden-state premise on the C03 machine itself.  The tape of the generational machine of `Core/Loops.lean` is
+a pair (generator states, hidden component); the checkpoint saves counter, GENERATOR states and loop state only
+(`hideEnc`), the new process comes up with the import-time hidden value `h0` (`hideDec`).  If every generation leaves
+the hidden component as it found it, then killing `runGens` after any number `k` of generations and resuming gives
+the uninterrupted run — for every loop of C03 (each is `runGens` over its decision records). -/
+theorem c03_resume_hidden_constant (ev : List Int → List Int) (enc : MState τ → B) (dec : B → Option (MState τ))
+    (hrt : ∀ m, dec (enc m) = some m) (steps : List (Step (τ × H))) (hk : ∀ stp ∈ steps, KeepsHidden stp)
+    (k g : Nat) (t : τ) (h0 : H) (s : LState) :
+    runGens ev steps g (t, h0) s =
+      (runGens ev (steps.take k) g (t, h0) s).bind (fun r =>
+        (hideDec dec h0 (hideEnc enc (g + min k steps.length, r.1, r.2))).bind (fun m =>
+          runGens ev (steps.drop k) m.1 m.2.1 m.2.2)) := by
+  have e := runGens_append ev (steps.take k) (steps.drop k) g (t, h0) s
+  rw [List.take_append_drop] at e
+  rw [e]
+  cases hr : runGens ev (steps.take k) g (t, h0) s with
+  | none => rfl
+  | some r =>
+    have hh : r.1.2 = h0 :=
+      runGens_keeps_hidden ev (steps.take k) (fun x hx => hk x (List.mem_of_mem_take hx)) g (t, h0) s r hr
+    obtain ⟨⟨t1, h1⟩, s1⟩ := r
+    simp only at hh
+    subst hh
+    simp [hideDec, hideEnc, hrt, List.length_take]
+
+example (stp : Step τ) : KeepsHidden (liftHidden (H := H) stp) := liftHidden_keeps stp
+
+end C03Hidden
+
+/-! ### Migration between demes (`tools.migRing`) -/
+
+open Migration
+
+section Mig
+variable {α κ : Type} [DecidableEq κ]
+
+/-- `migRing` is the second loop applied to the results of the selection / replacement calls of the first loop. -/
+theorem migRing_eq_with (key : α → κ) (pops : List (List α)) (k : Nat) (sel : List α → Nat → List α)
+    (rep : Option (List α → Nat → List α)) (ma : Option (List Nat)) :
+    migRing key pops k sel rep ma =
+      migRingWith key pops (pops.map (fun p => sel p k))
+        (match rep with
+         | none => pops.map (fun p => sel p k)
+         | some f => pops.map (fun p => f p k)) ma := by
+  cases rep <;> rfl
+
+/-- Determinism of a migration given its inputs: the result is a function of the populations, `k`, the migration
+array and of what the selection and replacement callables return ON THESE DEMES — nothing else (no hidden state,
+no dependence on the callables beyond their results). -/
+theorem migRing_deterministic (key : α → κ) (pops : List (List α)) (k : Nat)
+    (sel₁ sel₂ : List α → Nat → List α) (rep₁ rep₂ : Option (List α → Nat → List α)) (ma : Option (List Nat))
+    (hs : ∀ p ∈ pops, sel₁ p k = sel₂ p k)
+    (hr : ∀ p ∈ pops, rep₁.map (fun f => f p k) = rep₂.map (fun f => f p k)) :
+    migRing key pops k sel₁ rep₁ ma = migRing key pops k sel₂ rep₂ ma := by
+  have es : pops.map (fun p => sel₁ p k) = pops.map (fun p => sel₂ p k) := List.map_congr_left hs
+  rw [migRing_eq_with, migRing_eq_with, es]
+  cases rep₁ with
+  | none =>
+    cases rep₂ with
+    | none => rfl
+    | some g =>
+      cases pops with
+      | nil => rfl
+      | cons p ps => have := hr p (List.mem_cons_self ..); simp at this
+  | some f =>
+    cases rep₂ with
+    | none =>
+      cases pops with
+      | nil => rfl
+      | cons p ps => have := hr p (List.mem_cons_self ..); simp at this
+    | some g =>
+      have er : pops.map (fun p => f p k) = pops.map (fun p => g p k) :=
+        List.map_congr_left (fun p hp => by simpa using hr p hp)
+      simp only [er]
+
+example : ∀ p ∈ [[1, 2, 3], [4, 5, 6]], selFirst p 2 = (fun (q : List Nat) k => (q.take 5).take k) p 2 := by decide
+
+/-- A migration keeps the number of demes and the size of every deme. -/
+theorem migRing_shape (key : α → κ) (pops : List (List α)) (k : Nat) (sel : List α → Nat → List α)
+    (rep : Option (List α → Nat → List α)) (ma : Option (List Nat)) (pops' : List (List α))
+    (h : migRing key pops k sel rep ma = some pops') :
+    pops'.map List.length = pops.map List.length := by
+  rw [migRing_eq_with] at h
+  exact migrate_shape key _ _ _ pops pops' h
+
+/-- three demes of three, the two best of each move on along the ring and replace the emigrants there -/
+example : migRing (fun x : Nat => x) [[1, 2, 3], [4, 5, 6], [7, 8, 9]] 2 selFirst none none =
+    some [[7, 8, 3], [1, 2, 6], [4, 5, 9]] := by decide
+
+/-- with a replacement strategy (the worst leave) and an explicit migration array -/
+example : migRing (fun x : Nat => x) [[1, 2, 3], [4, 5, 6], [7, 8, 9]] 1 selFirst (some selLast) (some [2, 0, 1]) =
+    some [[1, 2, 4], [4, 5, 7], [7, 8, 1]] := by decide
+
+/-- the documented pitfall: a replacement strategy that names the same individual twice makes `index` fail
+(`ValueError`) as soon as no equal individual is left -/
+example : migRing (fun x : Nat => x) [[1, 2], [3, 4]] 2 selFirst (some (fun p _ => [p.headD 0, p.headD 0])) none =
+    none := by decide
+
+/-- Conservation: with no replacement strategy (immigrants take the places of the emigrants), a selection that
+returns the same number of emigrants for every deme, and a migration array that is a permutation of the deme indices
+(or the default ring), a migration only MOVES genomes: the genomes of all demes together are the same multiset before
+and after (`index` works with `==`, so this is a statement about genomes, not objects). -/
+theorem migRing_conserves (key : α → κ) (pops : List (List α)) (k : Nat) (sel : List α → Nat → List α)
+    (ma : Option (List Nat)) (hma : ∀ m, ma = some m → m.Perm (List.range pops.length))
+    (hlen : ∀ p ∈ pops, ∀ q ∈ pops, (sel p k).length = (sel q k).length) (pops' : List (List α))
+    (h : migRing key pops k sel none ma = some pops') :
+    (pops'.flatten.map key).Perm (pops.flatten.map key) := by
+  have hE : (pops.map (fun p => sel p k)).length = pops.length := by simp
+  have hn : 0 < pops.length ∨ ma ≠ none := by
+    cases ma with
+    | some m => exact Or.inr (by simp)
+    | none =>
+      left
+      cases pops with
+      | nil => simp [migRing, migRingWith, defaultRing, enumFrom', migrate] at h
+      | cons p ps => simp
+  have hm : (ma.getD (defaultRing pops.length)).Perm (List.range (pops.map (fun p => sel p k)).length) := by
+    rw [hE]
+    cases ma with
+    | some m => exact hma m rfl
+    | none =>
+      rcases hn with hn | hn
+      · exact defaultRing_perm _ hn
+      · exact absurd rfl hn
+  have hl : ∀ a ∈ pops.map (fun p => sel p k), ∀ b ∈ pops.map (fun p => sel p k), a.length = b.length := by
+    intro a ha b hb
+    obtain ⟨p, hp, rfl⟩ := List.mem_map.1 ha
+    obtain ⟨q, hq, rfl⟩ := List.mem_map.1 hb
+    exact hlen p hp q hq
+  have hp := migrate_perm key _ _ _ pops pops' h
+  exact (List.perm_append_right_iff _).1
+    (hp.trans (List.Perm.append_left _ (leaving_perm_arriving key _ _ hm hl).symm))
+
+example : [2, 0, 1].Perm (List.range [[1, 2, 3], [4, 5, 6], [7, 8, 9]].length) ∧
+    (∀ p ∈ [[1, 2, 3], [4, 5, 6], [7, 8, 9]], ∀ q ∈ [[1, 2, 3], [4, 5, 6], [7, 8, 9]],
+      (selFirst p 2).length = (selFirst q 2).length) ∧
+    migRing (fun x : Nat => x) [[1, 2, 3], [4, 5, 6], [7, 8, 9]] 2 selFirst none (some [2, 0, 1]) =
+      some [[4, 5, 3], [7, 8, 6], [1, 2, 9]] := by decide
+
+/-- Not decorative: with a replacement strategy genomes are overwritten (7 and 9 … are lost, 1 is doubled). -/
+example : migRing (fun x : Nat => x) [[1, 2, 3], [4, 5, 6], [7, 8, 9]] 1 selFirst (some selLast) none =
+    some [[1, 2, 7], [4, 5, 1], [7, 8, 4]] := by decide
+
+end Mig
 end C17
